@@ -262,23 +262,37 @@ func c20execArr(helper string, initOk bool, elems string) string {
 	return fmt.Sprintf("out=%s init=%s werr=%s back=%s", outS, initS, c20werr(err), back)
 }
 
-// white space between the tokens of hand-built documents (mirrors wsOf in Drive/C20.lean)
+// white space between the tokens of hand-built documents (mirrors wsOf in lean/ShpanVerif/Model/JsonText.lean)
 func c20ws(ws, i int) string {
 	switch ws {
 	case 0:
 		return ""
 	case 1:
 		return " "
-	}
-	switch i % 4 {
-	case 0:
-		return "\n\t"
-	case 1:
-		return ""
 	case 2:
-		return "  \r"
+		switch i % 4 {
+		case 0:
+			return "\n\t"
+		case 1:
+			return ""
+		case 2:
+			return "  \r"
+		}
+		return "\t"
 	}
-	return "\t"
+	switch (i*5 + i/4) % 6 {
+	case 0:
+		return " "
+	case 1:
+		return "\r\n"
+	case 2:
+		return "\t \n\r"
+	case 3:
+		return ""
+	case 4:
+		return "\n"
+	}
+	return "\r"
 }
 
 func c20buildArrDoc(ws int, es [][]byte) []byte {
@@ -704,11 +718,17 @@ func c20collectFile(src stream.Stream[[]byte], content []byte) string {
 
 // ---------------------------------------------------------------- generators
 
-// a JSON value grammar: nested arrays/objects, unicode, empty strings, integral numbers
-var c20strAlphabet = []string{"a", "b", "Z", " ", "\"", "\\", ",", "[", "]", "{", "}", ":", "é", "日本", "\n", "\t", "<", "&", " ", "😀", "0", "null"}
+// a JSON value grammar (Go values, marshalled by encoding/json): nested arrays/objects, unicode, empty strings,
+// every character class json.Marshal escapes (quote, backslash, control bytes, DEL, < > &, U+2028/2029, invalid UTF-8),
+// integral numbers, fractions, numbers json.Marshal writes in exponent form, negative zero
+var c20strAlphabet = []string{"a", "b", "Z", " ", "\"", "\\", ",", "[", "]", "{", "}", ":", "é", "日本", "\n", "\t", "<", "&", " ", "😀", "0", "null",
+	">", "/", "\r", "\b", "\f", "\x00", "\x01", "\x1f", "\x7f", "\u2028", "\u2029", "\ufffd", "\xff", "\xc3", "\xed\xa0\x80", "\\u0041", "\\\"", "'"}
 
-func c20genString(r *Rng) string {
-	n := r.Small(8)
+var c20floats = []float64{0, math.Copysign(0, -1), 1, -1, 0.5, -2.75, 1e20, 1e21, -1e21, 1.5e-7, 1e-6, 1e-7, 123456789012345680000, 1.7976931348623157e308,
+	5e-324, -2.2250738585072014e-308, 3.141592653589793, 1e100, 9007199254740993, 0.000001, 1234.5678e-20}
+
+func c20genStringN(r *Rng, max int) string {
+	n := r.Small(max)
 	var sb strings.Builder
 	for i := 0; i < n; i++ {
 		sb.WriteString(c20strAlphabet[r.Intn(len(c20strAlphabet))])
@@ -716,10 +736,12 @@ func c20genString(r *Rng) string {
 	return sb.String()
 }
 
+func c20genString(r *Rng) string { return c20genStringN(r, 8) }
+
 func c20genValue(r *Rng, depth int) any {
-	k := r.Intn(10)
-	if depth <= 0 && k >= 6 {
-		k = r.Intn(6)
+	k := r.Intn(11)
+	if depth <= 0 && k >= 7 {
+		k = r.Intn(7)
 	}
 	switch k {
 	case 0:
@@ -732,7 +754,12 @@ func c20genValue(r *Rng, depth int) any {
 		return float64(r.Intn(3))
 	case 4, 5:
 		return c20genString(r)
-	case 6, 7:
+	case 6:
+		if r.Bool() {
+			return c20floats[r.Intn(len(c20floats))]
+		}
+		return math.Float64frombits(r.Next()&^(0x7ff<<52) | uint64(r.Range(1, 2046))<<52) // any finite normal float
+	case 7, 8:
 		n := r.Small(4)
 		l := make([]any, n)
 		for i := range l {
@@ -749,12 +776,66 @@ func c20genValue(r *Rng, depth int) any {
 	}
 }
 
+// c20genDeepValue: a chain of `depth` nested arrays / objects; at every level the nested child sits between siblings
+// that are empty arrays, empty objects or scalars (an empty container at every position)
+func c20genDeepValue(r *Rng, depth int) any {
+	if depth <= 0 {
+		switch r.Intn(4) {
+		case 0:
+			return []any{}
+		case 1:
+			return map[string]any{}
+		}
+		return c20genValue(r, 0)
+	}
+	sib := func() any {
+		switch r.Intn(4) {
+		case 0:
+			return []any{}
+		case 1:
+			return map[string]any{}
+		case 2:
+			return c20genValue(r, 1)
+		}
+		return c20genValue(r, 0)
+	}
+	child := c20genDeepValue(r, depth-1)
+	before, after := r.Intn(3), r.Intn(3)
+	if r.Bool() {
+		var l []any
+		for i := 0; i < before; i++ {
+			l = append(l, sib())
+		}
+		l = append(l, child)
+		for i := 0; i < after; i++ {
+			l = append(l, sib())
+		}
+		return l
+	}
+	m := map[string]any{}
+	for i := 0; i < before+after; i++ {
+		m[c20genString(r)] = sib()
+	}
+	m["k"+c20genString(r)] = child
+	return m
+}
+
+// c20payload: the canonical JSON text of a value: json.Marshal after one round trip (so that invalid UTF-8 has become
+// U+FFFD and Marshal(Unmarshal(payload)) == payload)
 func c20payload(v any) string {
 	b, err := json.Marshal(v)
 	if err != nil {
 		panic(err)
 	}
-	return c20hex(b)
+	var v2 any
+	if err := json.Unmarshal(b, &v2); err != nil {
+		panic(err)
+	}
+	b2, err := json.Marshal(v2)
+	if err != nil {
+		panic(err)
+	}
+	return c20hex(b2)
 }
 
 func c20joinOrDash(l []string) string {
@@ -764,17 +845,236 @@ func c20joinOrDash(l []string) string {
 	return strings.Join(l, ",")
 }
 
-// escape-free object keys (decoding = the bytes between the quotes)
-var c20keyAlphabet = []string{"a", "b", "k", "0", " ", ",", "[", "}", ":", "é", "日", "<", "😀"}
+// ---- JSON TEXTS (not Go values): any RFC 8259 text, with insignificant white space at every legal position.
+// Used for the documents read as json.RawMessage (rdarr / rdobj): the reader must hand out exactly the text.
 
-func c20genKey(r *Rng) string {
-	n := r.Small(5)
+var c20wsBytes = []string{" ", "\t", "\n", "\r"}
+
+// c20tws: white space at one legal position: nothing when ws is off, otherwise 0..3 bytes of the four kinds
+func c20tws(r *Rng, ws bool) string {
+	if !ws || r.Intn(3) == 0 {
+		return ""
+	}
+	n := 1 + r.Intn(3)
 	var sb strings.Builder
 	for i := 0; i < n; i++ {
-		sb.WriteString(c20keyAlphabet[r.Intn(len(c20keyAlphabet))])
+		sb.WriteString(c20wsBytes[r.Intn(4)])
 	}
 	return sb.String()
 }
+
+var c20hexDigits = "0123456789abcdefABCDEF"
+
+func c20u4(r *Rng) string {
+	var sb strings.Builder
+	sb.WriteString("\\u")
+	for i := 0; i < 4; i++ {
+		sb.WriteByte(c20hexDigits[r.Intn(len(c20hexDigits))])
+	}
+	return sb.String()
+}
+
+// pieces of a string body in escaped form; `key` restricts the raw bytes to valid UTF-8 (the decoded key is compared)
+func c20genBody(r *Rng, n int, key bool) string {
+	var sb strings.Builder
+	for i := 0; i < n; i++ {
+		switch r.Intn(16) {
+		case 0, 1, 2:
+			sb.WriteString([]string{"a", "b", "Z", "0", " ", "~", "\x7f", "null", "true"}[r.Intn(9)])
+		case 3, 4:
+			sb.WriteString([]string{"[", "]", "{", "}", ",", ":", "/", "'", "<", ">", "&"}[r.Intn(11)])
+		case 5, 6, 7:
+			sb.WriteString([]string{"\\\"", "\\\\", "\\/", "\\b", "\\f", "\\n", "\\r", "\\t"}[r.Intn(8)])
+		case 8:
+			sb.WriteString(c20u4(r))
+		case 9:
+			sb.WriteString([]string{"\\u0000", "\\u001f", "\\u0022", "\\u005c", "\\u005C", "\\u2028", "\\u2029", "\\uFFFD", "\\ufffe", "\\uffff", "\\u00e9", "\\u003c"}[r.Intn(12)])
+		case 10:
+			// surrogates: a valid pair, lone high, lone low, high + non-surrogate escape, high + plain byte, low + high
+			sb.WriteString([]string{"\\ud83d\\ude00", "\\uD83D\\uDE00", "\\ud800", "\\udfff", "\\ud83d\\u0041", "\\ud83dx", "\\ude00\\ud83d", "\\udbff\\udfff", "\\ud800\\udc00", "\\ud83d\\ud83d\\ude00"}[r.Intn(10)])
+		case 11, 12:
+			sb.WriteString([]string{"é", "日本", "😀", "\u2028", "\u00a0", "\ufffd", "\U0010ffff", "ß"}[r.Intn(8)])
+		case 13:
+			if key {
+				sb.WriteString("k")
+			} else {
+				// raw bytes that are not valid UTF-8: the element scanner does not care, RawMessage keeps them
+				sb.WriteString([]string{"\xff", "\xc3", "\xed\xa0\x80", "\x80", "\xf8\x88"}[r.Intn(5)])
+			}
+		default:
+			sb.WriteByte(byte('a' + r.Intn(26)))
+		}
+	}
+	return sb.String()
+}
+
+func c20genNumberText(r *Rng) string {
+	var sb strings.Builder
+	if r.Intn(3) == 0 {
+		sb.WriteByte('-')
+	}
+	if r.Intn(3) == 0 {
+		sb.WriteByte('0')
+	} else {
+		sb.WriteByte(byte('1' + r.Intn(9)))
+		for n := r.Small(20); n > 0; n-- {
+			sb.WriteByte(byte('0' + r.Intn(10)))
+		}
+	}
+	if r.Intn(3) == 0 {
+		sb.WriteByte('.')
+		for n := 1 + r.Small(12); n > 0; n-- {
+			sb.WriteByte(byte('0' + r.Intn(10)))
+		}
+	}
+	if r.Intn(2) == 0 {
+		sb.WriteByte("eE"[r.Intn(2)])
+		if k := r.Intn(3); k < 2 {
+			sb.WriteByte("+-"[k])
+		}
+		for n := 1 + r.Small(4); n > 0; n-- {
+			sb.WriteByte(byte('0' + r.Intn(10)))
+		}
+	}
+	return sb.String()
+}
+
+func c20genScalarText(r *Rng, strMax int) string {
+	switch r.Intn(8) {
+	case 0:
+		return "null"
+	case 1:
+		return "true"
+	case 2:
+		return "false"
+	case 3, 4:
+		return c20genNumberText(r)
+	}
+	return `"` + c20genBody(r, r.Small(strMax), false) + `"`
+}
+
+// c20genText: a JSON text of nesting depth <= depth; ws = white space at every legal position
+func c20genText(r *Rng, depth int, ws bool) string {
+	k := r.Intn(10)
+	if depth <= 0 && k >= 6 {
+		k = r.Intn(6)
+	}
+	if k < 6 {
+		return c20genScalarText(r, 10)
+	}
+	n := r.Small(4)
+	var sb strings.Builder
+	if k < 8 {
+		sb.WriteByte('[')
+		sb.WriteString(c20tws(r, ws))
+		for i := 0; i < n; i++ {
+			if i > 0 {
+				sb.WriteByte(',')
+			}
+			sb.WriteString(c20tws(r, ws))
+			sb.WriteString(c20genText(r, depth-1, ws))
+			sb.WriteString(c20tws(r, ws))
+		}
+		sb.WriteByte(']')
+		return sb.String()
+	}
+	sb.WriteByte('{')
+	sb.WriteString(c20tws(r, ws))
+	for i := 0; i < n; i++ {
+		if i > 0 {
+			sb.WriteByte(',')
+		}
+		sb.WriteString(c20tws(r, ws))
+		sb.WriteString(`"` + c20genBody(r, r.Small(5), false) + `"`)
+		sb.WriteString(c20tws(r, ws))
+		sb.WriteByte(':')
+		sb.WriteString(c20tws(r, ws))
+		sb.WriteString(c20genText(r, depth-1, ws))
+		sb.WriteString(c20tws(r, ws))
+	}
+	sb.WriteByte('}')
+	return sb.String()
+}
+
+// c20genDeepText: a chain of exactly `depth` nested containers around a scalar or an empty container, siblings
+// (empty arrays, empty objects, scalars, small texts) before and after the nested child at every level
+func c20genDeepText(r *Rng, depth int, ws bool) string {
+	if depth <= 0 {
+		switch r.Intn(4) {
+		case 0:
+			return "[" + c20tws(r, ws) + "]"
+		case 1:
+			return "{" + c20tws(r, ws) + "}"
+		}
+		return c20genScalarText(r, 6)
+	}
+	sib := func() string {
+		switch r.Intn(4) {
+		case 0:
+			return "[" + c20tws(r, ws) + "]"
+		case 1:
+			return "{" + c20tws(r, ws) + "}"
+		case 2:
+			return c20genText(r, 1, ws)
+		}
+		return c20genScalarText(r, 6)
+	}
+	var items []string
+	before, after := r.Intn(3), r.Intn(3)
+	for i := 0; i < before; i++ {
+		items = append(items, sib())
+	}
+	items = append(items, c20genDeepText(r, depth-1, ws))
+	for i := 0; i < after; i++ {
+		items = append(items, sib())
+	}
+	obj := r.Bool()
+	var sb strings.Builder
+	if obj {
+		sb.WriteByte('{')
+	} else {
+		sb.WriteByte('[')
+	}
+	sb.WriteString(c20tws(r, ws))
+	for i, it := range items {
+		if i > 0 {
+			sb.WriteByte(',')
+		}
+		sb.WriteString(c20tws(r, ws))
+		if obj {
+			sb.WriteString(`"` + c20genBody(r, r.Small(4), false) + `"`)
+			sb.WriteString(c20tws(r, ws))
+			sb.WriteByte(':')
+			sb.WriteString(c20tws(r, ws))
+		}
+		sb.WriteString(it)
+		sb.WriteString(c20tws(r, ws))
+	}
+	if obj {
+		sb.WriteByte('}')
+	} else {
+		sb.WriteByte(']')
+	}
+	return sb.String()
+}
+
+// c20genLongString: a long string (hundreds to thousands of bytes) holding every escape kind
+func c20genLongString(r *Rng, n int) string {
+	all := `\"\\\/\b\f\n\r\t\u0000\u001F\u2028\ud83d\ude00\udc00[]{},:`
+	return `"` + c20genBody(r, n/2, false) + all + c20genBody(r, n/2, false) + `"`
+}
+
+// c20mustBeJson: the text generators only produce well-formed JSON (checked against encoding/json here, and against
+// the Lean grammar by the driver)
+func c20mustBeJson(t string) string {
+	if !json.Valid([]byte(t)) {
+		panic("c20 generator produced an invalid JSON text: " + t)
+	}
+	return c20hex([]byte(t))
+}
+
+// object key bodies in escaped form (the bytes between the quotes); the raw bytes are valid UTF-8
+func c20genKey(r *Rng) string { return c20genBody(r, r.Small(6), true) }
 
 func genC20(c *Ctx) {
 	genC20Json(c)
@@ -806,6 +1106,31 @@ func genC20Json(c *Ctx) {
 		}
 	}
 	rec(nil)
+	// exhaustive small scope of the element scanner: all lists up to length 2 (thorough 3) over 9 texts that stress it
+	// (empty containers, nested empties, inner white space of all four kinds, a string of delimiters and escapes, an
+	// escaped backslash before the closing quote, an exponent number), every white-space pattern, array and object
+	// documents (keys: empty, escaped quote + bracket, a \u escape)
+	tricky := []string{"[]", "{}", "[[],{}]", "{\"\":{\"\":[]}}", "[ \t[\r\n]\n, { \"a\"\t:\r[ ] } ]", `"]},\"[{:\\"`, `"\\"`, "-1.5E+3", "0e0"}
+	trickyKeys := []string{"", `\"]`, `\u0041\\`}
+	maxT := c.Pick(2, 3)
+	var recT func(cur []string)
+	recT = func(cur []string) {
+		for ws := 0; ws < 4; ws++ {
+			c.Case(len(cur) >= 2, fmt.Sprintf("rdarr %d %s", ws, c20joinOrDash(cur)))
+			ents := make([]string, len(cur))
+			for j, e := range cur {
+				ents[j] = c20hex([]byte(trickyKeys[(j+ws)%len(trickyKeys)])) + ":" + e
+			}
+			c.Case(len(cur) >= 2, fmt.Sprintf("rdobj %d %s", ws, c20joinOrDash(ents)))
+		}
+		if len(cur) >= maxT {
+			return
+		}
+		for _, p := range tricky {
+			recT(append(cur, c20mustBeJson(p)))
+		}
+	}
+	recT(nil)
 	// error branches of the writers: unmarshalable element at every position of lists up to length 3, failing init hook
 	for n := 1; n <= 3; n++ {
 		for pos := 0; pos < n; pos++ {
@@ -827,7 +1152,9 @@ func genC20Json(c *Ctx) {
 	bad := []string{"", " ", "3", `"s"`, "[", "{", "]", "}", "[]", "{}", "[1,2", "[1,2}", "[1 2]", "[1,,2]", "[1,2,]", "[,1]", "[1,",
 		"[1,2]x", " [ 1 , \"a]\" ]  ", "[[1,2],[3", "[[1,2],[3]]", "[{\"a\":[1,{\"b\":\"}\"}]}]", "[\"a\\\"b\",\"\\\\\"]", "[\"abc",
 		`{"a":1`, `{"a":1,`, `{"a":1,}`, `{"a" 1}`, `{"a":}`, `{1:2}`, `{"a":1]`, `{"a":1 "b":2}`, `{"a":1,"a":2}`, `{"":{}}`, `{"a"`, `{"a":`, `{,"a":1}`,
-		`{"a":[1,2],"b":{"c":"}"}}`, "null", "true", "[1]]", "{}}"}
+		`{"a":[1,2],"b":{"c":"}"}}`, "null", "true", "[1]]", "{}}",
+		"\t[\r\n[[[[[[[]]]]]]] ,\n{\"a\":{\"b\":{\"c\":{\"d\":{\"e\":{\"f\":{}}}}}}}\t", "[[[[[[[]]]]]]],", "\r\n{ \"a\\\"\" :\t[[[[[[{}]]]]]] ,", "{\"k\\u0041\":[[[[[[1]]]]]]]",
+		"[\"\\\\\",", "{\"\\\\\":1,", "[1e5 ,\t2E-3\n", "[ [ ] , { } ,"}
 	for _, d := range bad {
 		h := c20hex([]byte(d))
 		if h == "" {
@@ -835,6 +1162,29 @@ func genC20Json(c *Ctx) {
 		}
 		c.Case(true, "rdbad arr "+h)
 		c.Case(true, "rdbad obj "+h)
+	}
+	// directed: nesting depth 6..12 (thorough: up to 64), compact through the writers and back, and as texts with
+	// white space at every legal position read as raw messages; long strings with every escape kind
+	for d := 6; d <= c.Pick(12, 64); d++ {
+		for rep := 0; rep < c.Pick(2, 6); rep++ {
+			v := c20payload(c20genDeepValue(r, d))
+			v2 := c20payload(c20genDeepValue(r, d))
+			c.Case(true, fmt.Sprintf("arr %s 1 %s,%s", helpers[(d+rep)%3], v, v2))
+			c.Case(true, fmt.Sprintf("rdarr %d %s,%s", (d+rep)%4, v2, v))
+			t1 := c20mustBeJson(c20genDeepText(r, d, true))
+			t2 := c20mustBeJson(c20genDeepText(r, d, rep%2 == 0))
+			c.Case(true, fmt.Sprintf("rdarr %d %s,%s", (d+rep+1)%4, t1, t2))
+			c.Case(true, fmt.Sprintf("rdobj %d %s:%s,%s:%s,%s:%s", (d+rep+2)%4, c20hex([]byte(c20genKey(r))), t2, c20hex([]byte(c20genKey(r))), t1, c20hex([]byte(c20genKey(r))), v))
+		}
+	}
+	for _, n := range []int{40, 200, 700, 3000} {
+		for rep := 0; rep < c.Pick(1, 4); rep++ {
+			ls := c20mustBeJson(c20genLongString(r, n))
+			c.Case(true, fmt.Sprintf("rdarr %d %s,%s,%s", (n+rep)%4, ls, c20hex([]byte("[]")), ls))
+			c.Case(true, fmt.Sprintf("rdobj %d %s:%s,:%s", (n+rep+1)%4, c20hex([]byte(c20genBody(r, 30, true))), ls, ls))
+			lv := c20payload(c20genStringN(r, n))
+			c.Case(true, fmt.Sprintf("arr %s 1 %s,%s", helpers[rep%3], lv, lv))
+		}
 	}
 	// seeded random: element sequences over the value grammar through the three writers and back, and
 	// hand-built array / object documents with white space
@@ -852,8 +1202,18 @@ func genC20Json(c *Ctx) {
 			es2[r.Intn(k)] = "X"
 			c.Case(true, fmt.Sprintf("arr %s 1 %s", h, strings.Join(es2, ",")))
 		}
-		c.Case(k >= 2, fmt.Sprintf("rdarr %d %s", r.Intn(3), c20joinOrDash(es)))
-		// object: keys may repeat (document order and duplicates must be preserved)
+		// the documents read as raw messages: half of the time the elements are arbitrary JSON TEXTS (any number
+		// form, any escape, raw non-UTF-8 bytes in strings, white space at every legal position inside)
+		ts := es
+		if r.Bool() {
+			ts = make([]string, k)
+			ws := r.Intn(3) > 0
+			for j := range ts {
+				ts[j] = c20mustBeJson(c20genText(r, r.Intn(5), ws))
+			}
+		}
+		c.Case(k >= 2, fmt.Sprintf("rdarr %d %s", r.Intn(4), c20joinOrDash(ts)))
+		// object: keys in escaped form, may repeat (document order and duplicates must be preserved)
 		ents := make([]string, k)
 		keys := make([]string, 0, k)
 		for j := range ents {
@@ -864,19 +1224,19 @@ func genC20Json(c *Ctx) {
 				key = c20genKey(r)
 			}
 			keys = append(keys, key)
-			ents[j] = c20hex([]byte(key)) + ":" + es[j]
+			ents[j] = c20hex([]byte(key)) + ":" + ts[j]
 		}
-		c.Case(k >= 2, fmt.Sprintf("rdobj %d %s", r.Intn(3), c20joinOrDash(ents)))
+		c.Case(k >= 2, fmt.Sprintf("rdobj %d %s", r.Intn(4), c20joinOrDash(ents)))
 		// truncations of a valid document at token boundaries, wrong closer
 		if r.Intn(4) == 0 && k > 0 {
 			var raw [][]byte
-			for _, e := range es {
+			for _, e := range ts {
 				b, _ := c20unhex(e)
 				raw = append(raw, b)
 			}
 			cut := r.Intn(k)
-			doc := c20buildArrDoc(0, raw[:cut+1])
-			doc = doc[:len(doc)-1] // without "]"
+			doc := c20buildArrDoc(r.Intn(4), raw[:cut+1])
+			doc = doc[:bytes.LastIndexByte(doc, ']')] // without "]" and the white space after it
 			switch r.Intn(3) {
 			case 0:
 			case 1:
